@@ -53,6 +53,7 @@ func drive(args []string) error {
 	seed := fs.Int64("seed", 1, "")
 	rounds := fs.Int("rounds", 10, "")
 	gated := fs.Int("gated", 4, "gated rounds: a mining request is made to queue on chainLock behind an InsertBlock that moves the head")
+	dups := fs.Int("dups", 6, "rounds in which two confirm packets carrying the two encodings of ONE deputy's signature are inserted at the same instant (5 deputies)")
 	if err := fs.Parse(args); err != nil {
 		return err
 	}
@@ -86,6 +87,11 @@ func drive(args []string) error {
 	totalEmits, totalEvents := 0, 0
 	for g := 0; g < *gated; g++ {
 		if err := gatedRound(dir, g, emit); err != nil {
+			return err
+		}
+	}
+	for g := 0; g < *dups; g++ {
+		if err := dupRound(dir, g, emit); err != nil {
 			return err
 		}
 	}
@@ -419,6 +425,91 @@ func gatedRound(dir string, g int, emit func(map[string]interface{})) error {
 	return nil
 }
 
+// dupRound: five deputies (four signers make a block stable).  Block 1 (mined by deputy 1, confirmed by this node, deputy 2)
+// is followed by two confirm packets released at the same instant, carrying (r,s,v) and (r,n-s,v^1) of deputy 3's one
+// signature, then by deputy 4's confirm, then deputy 5's.  In every sequential order deputy 3 counts once.
+func dupRound(dir string, g int, emit func(map[string]interface{})) error {
+	const nd5 = 5
+	w := node.NewWorld(nd5, 1000)
+	w.GenesisTime = uint32(time.Now().Unix()) - 60
+	builder := w.NewNode(filepath.Join(dir, fmt.Sprintf("dbuilder%d", g)))
+	defer builder.Destroy()
+	blk, _, err := builder.Build(builder.Genesis, 0, 0, nil, fmt.Sprintf("d%d", g))
+	if err != nil {
+		return fmt.Errorf("dup round build: %v", err)
+	}
+	n := w.NewNode(filepath.Join(dir, fmt.Sprintf("dnut%d", g)))
+	defer n.Destroy()
+	byHash := map[common.Hash]int{n.Genesis.Hash(): 0, blk.Hash(): 1}
+	var evs []map[string]interface{}
+	project := func(fl map[string]interface{}) {
+		stable, head := n.DP.StableBlock(), n.DP.CurrentBlock()
+		unconf, chain := []int{}, []int{}
+		signers := map[string][]int{}
+		sig := func(b *types.Block) {
+			rs, _ := w.Signers(b)
+			o := []int{}
+			for _, q := range rs {
+				o = append(o, q+1)
+			}
+			sort.Ints(o)
+			signers[strconv.Itoa(byHash[b.Hash()])] = o
+		}
+		n.DB.IterateUnConfirms(func(b *types.Block) {
+			unconf = append(unconf, byHash[b.Hash()])
+			sig(b)
+		})
+		for h := uint32(1); h <= stable.Height(); h++ {
+			if b, err := n.DB.GetBlockByHeight(h); err == nil {
+				chain = append(chain, byHash[b.Hash()])
+				sig(b)
+			}
+		}
+		fl["stable"], fl["head"] = byHash[stable.Hash()], byHash[head.Hash()]
+		fl["unconf"], fl["chain"], fl["new"], fl["signers"] = unconf, chain, []map[string]int{}, signers
+	}
+	consensus.VerifEngineHook = func(dp *consensus.DPoVP, ev consensus.VerifEngineEvent) {
+		if dp != n.DP {
+			return
+		}
+		fl := map[string]interface{}{"ev": ev.Op, "seq": ev.Seq, "b": -1, "exists": false}
+		if id, ok := byHash[ev.Hash]; ok {
+			fl["b"] = id
+		}
+		ex, _ := n.DB.IsExistByHash(ev.Hash)
+		fl["exists"] = ex
+		project(fl)
+		evs = append(evs, fl) // under chainLock
+	}
+	n.DP.InsertBlock(node.Copy(blk, nil))
+	var wg sync.WaitGroup
+	start := make(chan struct{})
+	for v := 0; v < 2; v++ {
+		wg.Add(1)
+		go func(v int) {
+			defer wg.Done()
+			sigs := []types.SignData{node.Sign(blk.Hash(), w.Keys[2], v)}
+			<-start
+			n.DP.InsertConfirms(blk.Height(), blk.Hash(), sigs)
+		}(v)
+	}
+	time.Sleep(2 * time.Millisecond)
+	close(start)
+	wg.Wait()
+	n.DP.InsertConfirms(blk.Height(), blk.Hash(), []types.SignData{node.Sign(blk.Hash(), w.Keys[3], 0)})
+	n.DP.InsertConfirms(blk.Height(), blk.Hash(), []types.SignData{node.Sign(blk.Hash(), w.Keys[4], g%2)})
+	time.Sleep(50 * time.Millisecond)
+	consensus.VerifEngineHook = nil
+	sort.Slice(evs, func(i, j int) bool { return evs[i]["seq"].(uint64) < evs[j]["seq"].(uint64) })
+	emit(map[string]interface{}{"ev": "reset", "beh": 2000 + g, "nd": nd5, "self": self, "parent": []int{0}, "miner": []int{1},
+		"stable": 0, "head": 0, "unconf": []int{}, "chain": []int{}})
+	for _, fl := range evs {
+		fl["beh"] = 2000 + g
+		emit(fl)
+	}
+	return nil
+}
+
 func min(a, b int) int {
 	if a < b {
 		return a
@@ -438,6 +529,8 @@ func init() { engine.RegisterDriver("engine-conc", drive) }
 func driveSignGate(args []string) error {
 	fs := flag.NewFlagSet("signblock-gate", flag.ContinueOnError)
 	out := fs.String("out", "trace.ndjson", "")
+	workers := fs.Int("workers", 32, "goroutines of the free-running part")
+	perWorker := fs.Int("calls", 3000, "SignBlock calls per goroutine in the free-running part")
 	if err := fs.Parse(args); err != nil {
 		return err
 	}
@@ -530,7 +623,44 @@ func driveSignGate(args []string) error {
 			}
 		}
 	}
-	fmt.Printf("{\"schedules\": %d, \"lines\": %d}\n", sched, lines)
+	// free-running part: many goroutines sign many different hashes at once, as the miner, the block inserters and the
+	// goroutine that confirms stable blocks do; which interleavings happen is up to the scheduler.  Every invalid result is
+	// logged, and a sample of the valid ones.
+	sched++
+	enc.Encode(map[string]interface{}{"ev": "reset", "beh": sched, "h1": 0, "during": []int{}, "after": []int{}})
+	lines++
+	var smu sync.Mutex
+	var swg sync.WaitGroup
+	calls, bad := 0, 0
+	for g := 0; g < *workers; g++ {
+		swg.Add(1)
+		go func(g int) {
+			defer swg.Done()
+			for i := 0; i < *perWorker; i++ {
+				h := (g*7 + i) % 24 // neighbours share hashes now and then (cache hits), mostly they differ
+				hash := hashOf(sched, h)
+				sig, err := consensus.SignBlock(hash)
+				valid := false
+				if err == nil && len(sig) == 65 {
+					if id, rerr := types.BytesToSignData(sig).RecoverNodeID(hash); rerr == nil {
+						valid = w.DeputyOf(id) == 0
+					}
+				}
+				smu.Lock()
+				calls++
+				if !valid {
+					bad++
+				}
+				if !valid && bad <= 20 || i%500 == 0 {
+					enc.Encode(map[string]interface{}{"ev": "Sign", "beh": sched, "step": calls, "p": g, "h": h, "valid": valid})
+					lines++
+				}
+				smu.Unlock()
+			}
+		}(g)
+	}
+	swg.Wait()
+	fmt.Printf("{\"schedules\": %d, \"lines\": %d, \"free_calls\": %d, \"free_invalid\": %d}\n", sched, lines, calls, bad)
 	return nil
 }
 
